@@ -13,6 +13,9 @@ BB = 'regions.core.bounding_box'
 def _shims(m):
     m.shim(BB, '_is_int', symx.sym_is_int)
     m.shim(BB, 'int', symx.sint)
+    m.shim(BB, 'float', symx.sfloat)
+    from vf import kernels as _k
+    m.shim(BB, 'np', _k.NPFacade())
 
 
 def _encloses(m, bb, px, py, inside, what='region'):
